@@ -212,7 +212,13 @@ class Run(object):
         self._kev = []
         self.log.add("op", self.step_no, name, rec.get("in"), rec.get("dest"), rec.get("args"), rec.get("faults"))
         if name == "new":
-            tt = gen.build_tt(self.ttm, rec["spec"])
+            try:
+                tt = gen.build_tt(self.ttm, rec["spec"])
+            except Exception as e:   # TT(list of well-formed cores) is an API call as well
+                self._viol("inconsistent-result(TT.__init__)", "O3", {"problem": "raised " + repr(e)[:300]})
+            p_ = M.structural_problem(tt)
+            if p_ is not None:
+                self._viol("inconsistent-result(TT.__init__)", "O3", {"problem": p_})
             self._store(rec["dest"][0], tt, "new")
             return "ok"
         spec = OPS.get(name)
